@@ -517,6 +517,11 @@ func addTree(
 			c.FileInfo.Mode = tree.FileInfo.Mode
 		}
 
+		presentContent, destinationOccupied := all[c.Destination]
+		if destinationOccupied && presentContent.Type != TypeImplicitDir {
+			return contentCollisionError(c, presentContent)
+		}
+
 		all[c.Destination] = c.WithFileInfoDefaults(umask, mtime)
 
 		return nil
